@@ -10,7 +10,7 @@ from . import common
 
 LEVEL = 'other'
 EXPLANATION = (
-    'Static analysis (table extraction + table agreement). For every logic and every rule slot of Rules.groups the rule\'s schema is extracted from the source by partial evaluation over a symbolic node and checked, under the logic\'s own extracted truth tables / designated set / quantifier and modal generalisers, for "node satisfiable <=> some extension satisfiable" on every valuation (V^arity for operators, every non-empty set of instance values for quantifiers, every set of accessible-world values incl. the empty one for modal rules). Also: the glue the extraction relies on (node builders, node filters), shape exhaustiveness, world discipline and agreement of frame rules, Access.enforce and the frame named by the logic. Decides these clauses, not the behaviour of any particular proof run. (R7) the helper listeners and the Serial rule\'s target set that decide what a rule is still to be applied to are folded as inductive steps. (R8) the witness clause: fresh-mark invariants and witness slots of C06 (R0-R3, R6) imported. Skip guards of the form branch.has(x) are validated (x must be a node the rule goes on to add); a slot with another kind of skip is reported as skipped.')
+    'Static analysis (table extraction + table agreement). For every logic and every rule slot of Rules.groups the rule\'s schema is extracted from the source by partial evaluation over a symbolic node and checked, under the logic\'s own extracted truth tables / designated set / quantifier and modal generalisers, for "node satisfiable <=> some extension satisfiable" on every valuation (V^arity for operators, every non-empty set of instance values for quantifiers, every set of accessible-world values incl. the empty one for modal rules). Also: the glue the extraction relies on (node builders, node filters), shape exhaustiveness, world discipline and agreement of frame rules, Access.enforce and the frame named by the logic. Decides these clauses, not the behaviour of any particular proof run. (R7) the helper listeners and the Serial rule\'s target set that decide what a rule is still to be applied to are folded as inductive steps. (R8) the witness clause: fresh-mark invariants and witness slots of C06 (R0-R3, R6) imported. Skip guards of the form branch.has(x) are validated (x must be a node the rule goes on to add); a slot with another kind of skip is reported as skipped. R6 also folds the access rules on concrete relations over three worlds: each yields exactly the missing instances of its clause.')
 TRUSTED = ['CPython ast', 'sa.model C3/MRO resolver', 'sa.logics re-implementation of RuleNameAttrInducer (guarded)',
            'sa.tables Mval arithmetic/comparison model', 'contracts of maxceil/minfloor/reduce',
            'set-of-values abstraction of quantifier/modal semantics (re-proved per run by the ACI check)']
